@@ -1039,7 +1039,10 @@ class RT(fw.Prop):
         if k == "hist":
             cs, rets, _ = L.cmds({0: [{}, None]}, obs["muts"], obs["rets"])
             ctx.stats["histories_tied_to_the_store_model"] = ctx.stats.get("histories_tied_to_the_store_model", 0) + 1
-            return "(CHist %s %s %s %s)" % (L.spec_opinfo(case["root"]), cs, rets, L.rt(obs))
+            noreuse = not history_reuses(obs["muts"])
+            if noreuse:
+                ctx.stats["raw_histories_without_index_reuse"] = ctx.stats.get("raw_histories_without_index_reuse", 0) + 1
+            return "(CHist %s %s %s %s %s)" % (L.spec_opinfo(case["root"]), cs, rets, gbool(noreuse), L.rt(obs))
         if k == "hugr":
             if "start" in obs:
                 d0 = obs["start"]["dump"]
